@@ -390,7 +390,7 @@ def run_case(case):
             if not isinstance(sf.get("message"), str) or not isinstance(tb.get("traceback"), str):
                 viol.append(("failure-report-content", {"case": case}))
             if parent and kind != 8:
-                pl = P._task_level.as_list()
+                pl = world.action_level(P)
                 if not (
                     tb["task_uuid"] == sf["task_uuid"] == P.task_uuid
                     and tb["task_level"][:-1] == pl
